@@ -65,6 +65,22 @@ def judge_message(col: common.Collector, ll: codecrun.LoadedLayer, model: Dict[s
         if not o.ok:
             bad("static-query-raises", name, f"{o.exc_type}: {o.exc}")
             return
+    # the human readable report of the free parameters (print_free_parameters_info) names
+    # exactly the free parameters, in order
+    info = codecrun.call(lambda: __import__("odxtools.parameterinfo", fromlist=["x"]).parameter_info(
+        obj.free_parameters))
+    col.ev()
+    if not info.ok:
+        from .c05 import where_of
+        bad("free-parameter-info-raises", info.exc_type + "/" + where_of(info.exc),
+            f"{info.exc_type}: {info.exc}")
+    else:
+        listed = [ln.split(":", 1)[0] for ln in str(info.value).splitlines()
+                  if ln and not ln[0].isspace() and ":" in ln and not ln.startswith(("}", ")"))]
+        if listed != list(free.value):
+            bad("free-parameter-info-wrong", codecrun.offender_any(ll.ref, rq),
+                f"the report lists {listed}, free_parameters is {free.value}", report=str(info.value)[:600])
+        col.count("free-parameter-info-checked")
     assigns = full_assign(rq, model, r, mode, dobjs, tier)
     accepted: List[Tuple[Dict[str, Any], bytes]] = []
     warned: List[Tuple[Dict[str, Any], bytes]] = []
